@@ -536,10 +536,18 @@ func nearValue(r *RNG, leaf *Node, idc *int) *AV {
 	stringer := func(s string) *AV {
 		*idc++
 		if r.Chance(1, 12) {
+			if r.Chance(1, 2) {
+				return &AV{K: AVStringerPanic, ID: *idc + 1000}
+			}
 			return &AV{K: AVStringerPanic, ID: *idc}
 		}
 		if r.Chance(1, 10) {
 			return &AV{K: AVStringer, ID: *idc, S: "<nil>"}
+		}
+		if r.Chance(1, 10) {
+			// encoding/json's Number (objects decoded with UseNumber): a string type with a String method, i.e. a
+			// fmt.Stringer to the engine - also when its text looks like a number
+			return &AV{K: AVStringer, ID: 0, S: pick(r, []string{"10", "2.50", "-1", "1e3", "abc", "", "1.0.0", "9007199254740993", s})}
 		}
 		return &AV{K: AVStringer, ID: *idc, S: s}
 	}
